@@ -6,7 +6,8 @@ EXTENDS IndependenceBase
 
 At(an, ty, rn, res) == [an |-> an, ty |-> ty, rn |-> rn, res |-> res]
 In(kind, at, par, ver) == [kind |-> kind, at |-> at, par |-> par, ver |-> ver]
-LA(oi, an, rn) == [oi |-> oi, an |-> an, rn |-> rn]
+LA(oi, an, rn) == [oi |-> oi, an |-> an, rn |-> rn, mk |-> ""]
+LAM(oi, an, rn, mk) == [oi |-> oi, an |-> an, rn |-> rn, mk |-> mk]
 D(t, i) == [t |-> t, i |-> i]
 Blk(name, nrexcl, atoms, inters, cite) == [name |-> name, nrexcl |-> nrexcl, atoms |-> atoms, inters |-> inters, cite |-> cite]
 Lnk(orders, atoms, inters) == [orders |-> orders, atoms |-> atoms, inters |-> inters, rep |-> <<>>, del |-> {}]
@@ -51,6 +52,11 @@ KXB == LBond({"S"}, "BB", {"S"}, "BB", "0.51", 1)
 KXA == Lnk(<<0, 1, 2>>, <<LA(1, "BB", {"S"}), LA(2, "BB", {"S"}), LA(3, "BB", {"S"})>>, <<In("angles", <<1, 2, 3>>, "0.52", 1)>>)
 KYB == LBond({"S"}, "BB", {"S"}, "BB", "0.53", 1)
 
+\* a link that selects an atom by a residue-level attribute of the sequence file: an angle only where the first residue carries mark "x"
+BlockP == Blk("P", 1, <<At("A", "C1", "P", 1), At("B", "C2", "P", 1)>>, <<In("bonds", <<1, 2>>, "0.61", 1)>>, {})
+KPB == LBond({"P"}, "B", {"P"}, "A", "0.62", 1)
+KPM == Lnk(<<0, 1>>, <<LAM(1, "A", {"P"}, "x"), LA(1, "B", {"P"}), LA(2, "A", {"P"})>>, <<In("angles", <<1, 2, 3>>, "0.63", 1)>>)
+
 (* ---- modifications *)
 ModN == [name |-> "N-ter", atoms |-> <<[an |-> "BB", rep |-> TRUE, ty |-> "Qd"], [an |-> "SC1", rep |-> FALSE, ty |-> ""]>>,
          inters |-> <<[kind |-> "bonds", a |-> "BB", b |-> "SC1", par |-> "0.91"]>>]
@@ -81,7 +87,9 @@ FFcat == <<
        <<File("ff", <<D("b", 1), D("l", 1)>>), File("ff", <<D("l", 2)>>)>>),
   \* 8: two libraries with the same block name; file 1 = library X, file 2 = library Y (history inputs use one of them through lib=[...])
   MkFF(<<BlockS("P1"), BlockS("P2")>>, <<KXB, KXA, KYB>>, <<>>, {},
-       <<File("ff", <<D("b", 1), D("l", 1), D("l", 2)>>), File("ff", <<D("b", 2), D("l", 3)>>)>>)
+       <<File("ff", <<D("b", 1), D("l", 1), D("l", 2)>>), File("ff", <<D("b", 2), D("l", 3)>>)>>),
+  \* 9: link atom selected by a residue-level attribute that only some of the same-named residues carry
+  MkFF(<<BlockP>>, <<KPB, KPM>>, <<>>, {}, <<File("ff", <<D("b", 1), D("l", 1), D("l", 2)>>)>>)
 >>
 
 (* ---- residue graphs *)
@@ -91,7 +99,8 @@ Tri == {{1, 2}, {2, 3}, {1, 3}}
 Ring4 == {{1, 2}, {2, 3}, {3, 4}, {1, 4}}
 Kite == {{1, 2}, {2, 3}, {1, 3}, {3, 4}}
 NoFi(n) == [i \in 1..n |-> ""]
-Case(id, ff, start, rn, fi, E, mods) == [id |-> id, ff |-> ff, n |-> Len(rn), start |-> start, rn |-> rn, fi |-> fi, E |-> E, mods |-> mods]
+Case(id, ff, start, rn, fi, E, mods) == [id |-> id, ff |-> ff, n |-> Len(rn), start |-> start, rn |-> rn, fi |-> fi, E |-> E, mods |-> mods, mark |-> [i \in 1..Len(rn) |-> ""]]
+CaseM(id, ff, start, rn, E, mark) == [Case(id, ff, start, rn, NoFi(Len(rn)), E, <<>>) EXCEPT !.mark = mark]
 MX == <<"X", "Y">>
 CaseSeq == <<
   Case(1, 1, 1, <<"A", "A">>, NoFi(2), Chain(2), <<>>),
@@ -125,12 +134,15 @@ CaseSeq == <<
   Case(30, 7, 1, <<"S", "S", "S">>, NoFi(3), Chain(3), <<>>),
   Case(31, 7, 1, <<"S", "S", "S", "S">>, NoFi(4), Star4, <<>>),
   Case(32, 7, 2, <<"S", "S", "S", "S">>, NoFi(4), Ring4, <<>>),
-  Case(33, 8, 1, <<"S", "S", "S">>, NoFi(3), Chain(3), <<>>)
+  Case(33, 8, 1, <<"S", "S", "S">>, NoFi(3), Chain(3), <<>>),
+  CaseM(34, 9, 1, <<"P", "P", "P", "P">>, Chain(4), <<"", "", "x", "">>),
+  CaseM(35, 9, 1, <<"P", "P", "P", "P">>, Star4, <<"x", "", "", "y">>),
+  CaseM(36, 9, 3, <<"P", "P", "P">>, Tri, <<"", "x", "x">>)
 >>
 AllCases == ToSet(CaseSeq)
 CasesById(S) == {c \in AllCases : c.id \in S}
 \* the quick instance of the confluence check (thorough: AllCases)
-CasesQuick == CasesById({1, 2, 5, 8, 9, 11, 12, 13, 14, 16, 17, 20, 22, 23, 24, 26, 27, 30, 31, 33})
+CasesQuick == CasesById({1, 2, 5, 8, 9, 11, 12, 13, 14, 16, 17, 20, 22, 23, 24, 26, 27, 30, 31, 33, 34, 36})
 \* small sub-instances for the sensitivity runs
 CasesSlice == CasesById({13})
 CasesFrag == CasesById({16})
@@ -141,9 +153,10 @@ CasesOrient == CasesById({1})
 CasesFiles == CasesById({24})
 CasesAdd == CasesById({8, 14})
 CasesStar == CasesById({31})
+CasesMark == CasesById({34})
 
 NoDev == [sliceAny |-> FALSE, key0 |-> FALSE, addAny |-> FALSE, firstMatchOnly |-> FALSE, orientLink |-> FALSE,
-          dfsTreeFrag |-> FALSE, fragIdOrder |-> FALSE, itpGlobal |-> FALSE, cacheFF |-> FALSE, writerAppend |-> FALSE, flushLate |-> FALSE, canonMatch |-> FALSE, baseOnly |-> FALSE, oncePerGroup |-> FALSE, inpathLeak |-> FALSE]
+          dfsTreeFrag |-> FALSE, fragIdOrder |-> FALSE, itpGlobal |-> FALSE, cacheFF |-> FALSE, writerAppend |-> FALSE, flushLate |-> FALSE, canonMatch |-> FALSE, baseOnly |-> FALSE, oncePerGroup |-> FALSE, inpathLeak |-> FALSE, nameCache |-> FALSE, readerCache |-> FALSE]
 DevSliceAny == [NoDev EXCEPT !.sliceAny = TRUE, !.baseOnly = TRUE]
 DevKey0 == [NoDev EXCEPT !.key0 = TRUE, !.baseOnly = TRUE]
 DevAddAny == [NoDev EXCEPT !.addAny = TRUE, !.baseOnly = TRUE]
@@ -154,6 +167,8 @@ DevFragIdOrder == [NoDev EXCEPT !.fragIdOrder = TRUE, !.baseOnly = TRUE]
 DevItpGlobal == [NoDev EXCEPT !.itpGlobal = TRUE]
 DevOncePerGroup == [NoDev EXCEPT !.oncePerGroup = TRUE, !.baseOnly = TRUE]
 DevInpathLeak == [NoDev EXCEPT !.inpathLeak = TRUE]
+DevNameCache == [NoDev EXCEPT !.nameCache = TRUE, !.baseOnly = TRUE]
+DevReaderCache == [NoDev EXCEPT !.readerCache = TRUE]
 DevCacheFF == [NoDev EXCEPT !.cacheFF = TRUE]
 DevWriterAppend == [NoDev EXCEPT !.writerAppend = TRUE]
 DevFlushLate == [NoDev EXCEPT !.flushLate = TRUE]
